@@ -102,7 +102,7 @@ def fam_eval(F, p, t):
 def make_solver(kind):
     """user `linalg_solve` callables of the kinds the driver knows; returns (callable or None, kwargs, driver kind)"""
     def base(A, b):
-        A = np.asarray(A, dtype=float)
+        A = np.asarray(A.toarray() if hasattr(A, "toarray") else A, dtype=float)
         if np.linalg.matrix_rank(A) < A.shape[0]:
             raise SolverRaised("singular")
         return np.linalg.solve(A, np.asarray(b, dtype=float))
@@ -128,7 +128,7 @@ def make_solver(kind):
     if kind == "t2":
         return (lambda A, b: (base(A, b), float(np.asarray(b)[0]))), None, "t2"
     if kind == "t3":
-        return (lambda A, b: (base(A, b), float(np.asarray(b)[0]), float(np.asarray(A)[0, 0]))), None, "t3"
+        return (lambda A, b: (base(A, b), float(np.asarray(b)[0]), float(A[0, 0]))), None, "t3"
     if kind == "raise":
         def r(A, b):
             raise SolverRaised("refuses")
@@ -315,6 +315,33 @@ def dtype_views(variant, F, p, ts):
     return form, pv_, tv
 
 
+def buffered_form(inner, n, mode):
+    """PDE_form that writes operator, source and initial condition into ONE set of re-used buffers and hands back the same
+    objects at every call: the CONTENTS follow (parameter, t), the object identities never change.  mode 'dense' / 'sparse'
+    (operator = scipy.sparse.csr_matrix with a full pattern whose .data is refilled).  `inner(par, t)` gives the fresh arrays."""
+    import scipy.sparse
+    buf = {"A": np.zeros((n, n)), "b": np.zeros(n), "ic": np.zeros(n)}
+    if mode == "sparse":
+        buf["A"] = scipy.sparse.csr_matrix(np.ones((n, n)))
+
+    def form(par, t):
+        A, b, ic = inner(par, t)
+        if mode == "sparse":
+            buf["A"].data[:] = np.asarray(A, dtype=float).ravel()
+        else:
+            buf["A"][...] = A
+        buf["b"][...] = b
+        buf["ic"][...] = ic
+        return buf["A"], buf["b"], buf["ic"]
+    form.buffers = buf
+    return form
+
+
+def buffered_steady_form(inner, n, mode):
+    f3 = buffered_form(lambda par, t: inner(par) + (np.zeros(n),), n, mode)
+    return lambda par: f3(par, 0.0)[:2]
+
+
 def snap(*objs):
     return [o.tobytes() if isinstance(o, np.ndarray) else repr(o) for o in objs]
 
@@ -407,6 +434,14 @@ def gen_times(rng, nt, kind):
         for _ in range(nt - 1):
             ts.append(ts[-1] + rng.choice([0.0625, 0.125, 0.25, 0.375, 0.5, 0.75]))
         return np.array(ts)
+    if kind == "blocks":                # non-uniform, but with runs of bitwise-equal consecutive steps
+        ts = [t0]
+        while len(ts) < nt:
+            h = rng.choice([0.0625, 0.125, 0.25, 0.5])
+            for _ in range(rng.randint(2, 3)):
+                if len(ts) < nt:
+                    ts.append(ts[-1] + h)
+        return np.array(ts)
     if kind == "wild":                  # zero and negative increments: the code does not refuse them
         ts = [t0]
         for _ in range(nt - 1):
@@ -484,9 +519,14 @@ ODD_METHODS = ["Forward_Euler", "BACKWARD_EULER", "Backward_euler", "rk4", "eule
 def check_time_solve(ctx, cuqi, rng, ncases, bump):
     from cuqi.pde import TimeDependentLinearPDE
     cases, lines = [], []
+    NBUF0 = 2 * len(TIME_FLAVOURS) + 2 * len(DT_VARIANTS) + 12
     for c in range(ncases):
         n = rng.randint(1, 5) if ctx.tier != "thorough" else rng.randint(1, 8)
         flavour = TIME_FLAVOURS[c % len(TIME_FLAVOURS)] if c < 4 * len(TIME_FLAVOURS) else rng.choice(TIME_FLAVOURS)
+        bufdet = NBUF0 <= c < NBUF0 + 24
+        if bufdet:      # always present: re-used buffers with time-/parameter-dependent contents, runs of equal steps
+            flavour = ["op-t", "op-t", "heat-source-t", "ic-t", "op-p", "general"][(c - NBUF0) % 6]
+            n = max(n, 2)
         if n == 1 and flavour in ("op-p",):
             n = 2
         F, npar = gen_time_family(rng, n, flavour)
@@ -494,9 +534,14 @@ def check_time_solve(ctx, cuqi, rng, ncases, bump):
         method = rng.choice(METHODS) if r < 0.88 else rng.choice(ODD_METHODS)
         if c < 2 * len(TIME_FLAVOURS):
             method = METHODS[(c // len(TIME_FLAVOURS)) % 2]
-        gridkind = rng.choice(["uniform", "nonuniform", "nonuniform", "wild"]) if flavour != "general" or method != "backward_euler" else rng.choice(["uniform", "nonuniform"])
+        gridkind = rng.choice(["uniform", "nonuniform", "nonuniform", "wild", "blocks"]) if flavour != "general" or method != "backward_euler" else rng.choice(["uniform", "nonuniform", "blocks"])
+        if bufdet:
+            method = METHODS[((c - NBUF0) // 6) % 2]
+            gridkind = ["blocks", "uniform"][((c - NBUF0) // 12) % 2]
         nt = rng.choice([1, 2, 2, 3, 4, 5, 6, 8]) if ctx.tier != "thorough" else rng.choice([1, 2, 3, 4, 5, 6, 8, 12, 16])
         nsig = 2 * len(TIME_FLAVOURS)
+        if bufdet:
+            nt = rng.choice([5, 6, 7])
         if c < nsig:              # always present: every flavour, both methods, on a re-scaled time axis
             nt = rng.choice([3, 4, 5]); gridkind = ["uniform", "nonuniform"][c % 2]
             if n == 1:
@@ -557,7 +602,12 @@ def check_time_solve(ctx, cuqi, rng, ncases, bump):
             n = max(n, 2)
             F, npar, p, ts = dtype_time_case(rng, n, variant)
             skind = rng.choice(["default", "plain", "t2"]); flavour = "dtype-" + variant; gridkind = "dtype"
-        cases.append(dict(n=n, flavour=flavour, F=F, p=p, method=method, ts=ts, skind=skind, gridkind=gridkind, variant=variant))
+        bufmode = None
+        if variant is None and (bufdet or rng.random() < 0.25):
+            bufmode = ["dense", "sparse"][c % 2] if bufdet else rng.choice(["dense", "dense", "sparse"])
+            if bufdet:
+                skind = (DEFAULTISH + ["plain", "t2", "kw"])[(c - NBUF0) % 8]
+        cases.append(dict(n=n, flavour=flavour, F=F, p=p, method=method, ts=ts, skind=skind, gridkind=gridkind, variant=variant, bufmode=bufmode))
         _, _, dk = make_solver(skind)
         lines.append(f"time {n} {method if method else '-'} {dk} {qv(ts)} {fam_tokens(F)} {qv(p)}")
     outs = ctx.lean.drive(lines)
@@ -575,6 +625,10 @@ def check_time_solve(ctx, cuqi, rng, ncases, bump):
             vform, p_in, ts_in = dtype_views(cs["variant"], F, p, ts)
         else:
             vform, p_in, ts_in = (lambda par, t, F=F: fam_eval(F, par, t)), p.copy(), ts.copy()
+        if cs.get("bufmode"):
+            vform = buffered_form(vform, n, cs["bufmode"])
+            desc["PDE_form_buffers"] = cs["bufmode"]
+            key = key + ":buffers"
 
         def form(par, t, calls=calls, vform=vform):
             calls.append(float(t))
@@ -604,6 +658,18 @@ def check_time_solve(ctx, cuqi, rng, ncases, bump):
                 ctx.fail(key, desc, f"level {where} satisfies the {method.lower()} relation / initial condition (scaled residual <= {TOL})",
                          f"scaled residual {res:.3e}; u={short(u)}",
                          "a stored time level does not satisfy the documented one-step relation")
+        if impl_err is None and cs.get("bufmode"):
+            # the same run with a PDE_form that returns FRESH arrays at every call must give the same levels
+            try:
+                with quiet():
+                    s2, k2, _ = make_solver(skind)
+                    pf = TimeDependentLinearPDE(lambda par, t, F=F: fam_eval(F, par, t), ts.copy(), method=method, linalg_solve=s2, linalg_solve_kwargs=k2)
+                    pf.assemble(p.copy()); uf, _ = pf.solve()
+                if not arr_same(np.asarray(uf, dtype=float), np.asarray(u, dtype=float), 1e-12):
+                    ctx.fail(key, desc, "the levels obtained when PDE_form returns fresh arrays: " + short(uf), short(u),
+                             "solve() depends on the identity of the arrays PDE_form returns (re-used buffers with new contents)")
+            except Exception:
+                pass
         # ---- tie
         if out.startswith("err:"):
             mcls = out[4:]
@@ -730,6 +796,11 @@ def check_steady_solve(ctx, cuqi, rng, ncases, bump):
             if sv == "list-p":
                 return [int(x) for x in par]
             return par.copy()
+        if sv is None and rng.random() < 0.35:      # operator / right-hand side written into re-used buffers (same objects, new contents per assemble)
+            bm = rng.choice(["dense", "sparse"]) if skind in ("plain", "kw", "t1", "t2", "t3") else "dense"   # scipy.linalg.solve itself takes no sparse operator
+            form = buffered_steady_form(form, n, bm)
+            desc["PDE_form_buffers"] = bm
+            key = key + ":buffers"
         with quiet():
             pde = SteadyStateLinearPDE(form, linalg_solve=solver, linalg_solve_kwargs=kwargs)
         mouts = out.split("|")
@@ -1377,7 +1448,7 @@ def check_pipeline(ctx, cuqi, rng, ncases, bump):
             x = dyv(rng, npar)
             method = rng.choice(METHODS)
             nt = rng.choice([4, 5, 6])
-            ts = gen_times(rng, nt, rng.choice(["uniform", "nonuniform"]))
+            ts = gen_times(rng, nt, rng.choice(["uniform", "nonuniform", "blocks"]))
             ts = ts - ts[0]
             ts = ts / 4
             tobs, ttok, tclass = gen_tobs(rng, ts)
@@ -1411,12 +1482,17 @@ def check_pipeline(ctx, cuqi, rng, ncases, bump):
         xfun = fmap(x) if fmap else x
         cs["xfun"] = xfun
         tform = (lambda par, t, F=F: fam_eval(F, par, t)[:2] + (par,)) if xv == "int-ic-alias" else (lambda par, t, F=F: fam_eval(F, par, t))
+        sform = lambda par, F=F: fam_eval(F, par, 0.0)[:2]
+        if xv is None and rng.random() < 0.3:
+            bm = rng.choice(["dense", "sparse"]) if (cs["kind"] == "time" or cs["skind"] in ("plain", "kw", "t1", "t2", "t3")) else "dense"
+            tform = buffered_form(tform, cs["N"], bm); sform = buffered_steady_form(sform, cs["N"], bm)
+            cs["flavour"] = cs["flavour"] + ":buffers"
         before = snap(xin, gs, go, cs.get("ts"), cs.get("tobs"))
         impl_err = None
         try:
             with quiet():
                 if cs["kind"] == "steady":
-                    pde = SteadyStateLinearPDE(lambda par, F=F: fam_eval(F, par, 0.0)[:2], grid_sol=gs, grid_obs=go, observation_map=cs["om"],
+                    pde = SteadyStateLinearPDE(sform, grid_sol=gs, grid_obs=go, observation_map=cs["om"],
                                                linalg_solve=cs["solver"], linalg_solve_kwargs=cs["kwargs"])
                 else:
                     pde = TimeDependentLinearPDE(tform, cs["ts"], method=cs["method"], time_obs=cs["tobs"],
@@ -1647,8 +1723,10 @@ def check_solve_histories(ctx, cuqi, rng, ncases, bump):
         steady = (c % 5 == 4)
         n = rng.randint(2, 4)
         def short_ts(t0=None):
-            nt = [2, 2, 1, 3, 2, 5][c % 6] if rng.random() < 0.7 else rng.choice([1, 2, 3, 4])
+            nt = [2, 2, 1, 3, 2, 5][c % 6] if rng.random() < 0.7 else rng.choice([1, 2, 3, 4, 6])
             t0 = (0.0 if rng.random() < 0.7 else dy(rng, -1, 1, 2)) if t0 is None else t0
+            if nt >= 4 and rng.random() < 0.6:      # runs of equal steps
+                return gen_times(rng, nt, rng.choice(["blocks", "uniform"])) * 0.5 + t0
             return np.cumsum([t0] + [rng.choice([0.0625, 0.125, 0.25]) for _ in range(nt - 1)])
         ts = None if steady else short_ts()
         if steady:
@@ -1665,12 +1743,20 @@ def check_solve_histories(ctx, cuqi, rng, ncases, bump):
         method = METHODS[c % 2]
         skind = rng.choice(DEFAULTISH + ["plain", "t2"])
         solver, kwargs, dk = make_solver(skind)
+        bm = rng.choice(["dense", "sparse"]) if rng.random() < 0.5 else None
+        if bm == "sparse" and steady and skind not in ("plain", "t2"):
+            bm = "dense"
+        hform_s = lambda par, F=F: fam_eval(F, par, 0.0)[:2]
+        hform_t = lambda par, t, F=F: fam_eval(F, par, t)
+        if bm:
+            hform_s = buffered_steady_form(hform_s, n, bm); hform_t = buffered_form(hform_t, n, bm)
+            flavour = flavour + ":buffers-" + bm
         try:
             with quiet():
                 if steady:
-                    pde = SteadyStateLinearPDE(lambda par, F=F: fam_eval(F, par, 0.0)[:2], linalg_solve=solver, linalg_solve_kwargs=kwargs)
+                    pde = SteadyStateLinearPDE(hform_s, linalg_solve=solver, linalg_solve_kwargs=kwargs)
                 else:
-                    pde = TimeDependentLinearPDE(lambda par, t, F=F: fam_eval(F, par, t), ts.copy(), method=method, linalg_solve=solver, linalg_solve_kwargs=kwargs)
+                    pde = TimeDependentLinearPDE(hform_t, ts.copy(), method=method, linalg_solve=solver, linalg_solve_kwargs=kwargs)
         except Exception as e:  # noqa
             ctx.note(f"solve-history object could not be built: {type(e).__name__}")
             continue
